@@ -27,7 +27,8 @@ PREAMBLE = r"""
     }
     static mut LOG: [u8; 4] = [255; 4];
     static mut NLOG: usize = 0;
-    // plan per leaf id: kind 0 = Bool(PB), 1 = Int(PI), 2 = None, 3 = Err(DivisionByZero), 4 = Float(PF), 5 = empty String
+    // plan per leaf id: kind 0 = Bool(PB), 1 = Int(PI), 2 = None, 3 = Err(DivisionByZero), 4 = Float(PF), 5 = empty String,
+    // 6 = String "1", 7 = Decimal(PI as i64 at scale 0)
     static mut PK: [u8; 3] = [0; 3];
     static mut PB: [bool; 3] = [false; 3];
     static mut PI: [i128; 3] = [0; 3];
@@ -40,6 +41,8 @@ PREAMBLE = r"""
                 2 => Ok(Value::None),
                 3 => Err(Error::DivisionByZero),
                 4 => Ok(Value::Float(PF[id])),
+                6 => Ok(Value::String(String::from("1"))),
+                7 => Ok(Value::Decimal(rust_decimal::Decimal::from_parts(PI[id] as u32, 0, 0, false, 0))),
                 _ => Ok(Value::String(String::new())),
             }
         }
@@ -54,12 +57,12 @@ PREAMBLE = r"""
         Box::pin(std::future::ready(r))
     }
     fn leaf(k: i128) -> Expr { Expr::Value(Value::Int(k)) }
-    trait BoolOut { fn is_bool(&self, b: bool) -> bool; fn is_div0(&self) -> bool; }
-    impl BoolOut for Result<bool> {
+    trait LazyOut { fn is_bool(&self, b: bool) -> bool; fn is_div0(&self) -> bool; }
+    impl LazyOut for Result<bool> {
         fn is_bool(&self, b: bool) -> bool { matches!(self, Ok(x) if *x == b) }
         fn is_div0(&self) -> bool { matches!(self, Err(Error::DivisionByZero)) }
     }
-    impl BoolOut for Result<Value> {
+    impl LazyOut for Result<Value> {
         fn is_bool(&self, b: bool) -> bool { matches!(self, Ok(Value::Bool(x)) if *x == b) }
         fn is_div0(&self) -> bool { matches!(self, Err(Error::DivisionByZero)) }
     }
@@ -174,8 +177,11 @@ def gen(run, tier):
             continue   # same helper as ==: already covered (the arm's negation is inside the dispatcher)
         arm_negates = bool(re.search(r"\|\s*\w+\s*\|\s*(?:Value::Bool\()?\s*!", e["text"]))
         fn_negated = negated_op != arm_negates      # does the helper itself return the negated comparison?
-        for lk, lname in ((2, "none"), (1, "int"), (0, "bool")):
-            for rk, rname in ((1, "int"), (2, "none"), (3, "err")):
+        pairs = [((lk, lname), (rk, rname)) for lk, lname in ((2, "none"), (1, "int"), (0, "bool")) for rk, rname in ((1, "int"), (2, "none"), (3, "err"))]
+        # values that would coincide after coercion: different types are simply not equal
+        pairs += [((6, "str1"), (7, "dec")), ((7, "dec"), (6, "str1")), ((1, "int"), (4, "float")), ((1, "int"), (7, "dec")), ((6, "str1"), (1, "int"))]
+        for (lk, lname), (rk, rname) in pairs:
+            if True:
                 kinds = (lk, rk)
                 if lk == 2:
                     exp_log, val = "log_is(&[0])", "false"
@@ -205,7 +211,7 @@ def gen(run, tier):
         show("result", &out); show("calls", &unsafe {{ LOG }}); show("ncalls", &unsafe {{ NLOG }});
         assert!({exp_log});
         assert!({nres});"""
-                hs.append(Harness(f"{ctor}_left_{lname}_right_{rname}", body, unwind=1, stubs=[("Expr::eval_rec", "oracle_eval_rec")], heavy=True,
+                hs.append(Harness(f"{ctor}_left_{lname}_right_{rname}", body, unwind=(6 if 6 in kinds else 1), stubs=[("Expr::eval_rec", "oracle_eval_rec")], heavy=True,
                                   mandatory=False, native_body=native, abstract=True,
                                   meta={"operator": "==" if not negated_op else "!=", "function": efn, "left": lname, "right": rname,
                                         "asserted": "right operand not evaluated when the left is None (== false, != true); otherwise both once, left first"}))
